@@ -131,7 +131,7 @@ def check_find_snake(ctx, top):
     okc = bool(skip) and ast.unparse(skip[0].test) == "not isinstance(%s.boxes[%s], Cap)" % (dg, cap) and \
         m.resolve_class(RW, "Cap") is None
     # `Cap` is imported inside snake_removal: resolve through the function-local import
-    ctx.ob("R07.2", Q + ".find_snake:cap-only", bool(skip) and ast.unparse(skip[0].test) == "not isinstance(%s.boxes[%s], Cap)" % (dg, cap),
+    ctx.ob("R07.2", Q + ".find_snake:cap-only", bool(skip) and ast.unparse(shape.inline(skip[0].test, outer.body)) == "not isinstance(%s.boxes[%s], Cap)" % (dg, cap),
            found=[ast.unparse(s.test) for s in skip], required="only Cap boxes start a snake", mod=RW, node=outer, sig="cap-only")
     legs = next((n for n in ast.walk(outer) if isinstance(n, ast.For) and isinstance(n.iter, ast.List) and len(n.iter.elts) == 2), None)
     ctx.need(legs is not None and isinstance(legs.target, ast.Tuple) and len(legs.target.elts) == 2, "find_snake: no loop over the two legs of the cap")
@@ -181,7 +181,8 @@ def check_find_snake(ctx, top):
             raise ValueError(s)
         known = pred.TRUE
         for st, lab, how in g.raising_guards_before(ret) if False else continue_guards(legs, ret):
-            test = shape.inline(st.test, legs.body)
+            test = shape.inline(shape.inline(st.test, legs.body), outer.body)          # locals of the leg loop, then of the cap loop (explaining variables)
+            test = _choose(test, flag, left)                                            # `a if left_snake else b` on the side being read
             f = pred.nf(test, evl, opaque)
             known = pred._and(known, pred.negate(f) if lab == "T" else f)
         side = "left" if left else "right"
@@ -205,6 +206,25 @@ def check_find_snake(ctx, top):
                required="%s == %s (the wire that survives the yank has one type; otherwise the pair is not a snake equation)" % alts[0], mod=RW,
                node=ret, sig="types-" + side)
     return cap, cup
+
+
+class _Choose(ast.NodeTransformer):
+    def __init__(self, flag, val):
+        self.flag, self.val = flag, val
+
+    def visit_IfExp(self, e):
+        self.generic_visit(e)
+        t, neg = e.test, False
+        while isinstance(t, ast.UnaryOp) and isinstance(t.op, ast.Not):
+            t, neg = t.operand, not neg
+        if isinstance(t, ast.Name) and t.id == self.flag:
+            return e.body if (self.val != neg) else e.orelse
+        return e
+
+
+def _choose(test, flag, val):
+    import copy
+    return _Choose(flag, val).visit(copy.deepcopy(test))
 
 
 def continue_guards(loop, target):
